@@ -102,8 +102,11 @@ func raceAfter(op string) {
 			sc = sc[:160]
 		}
 		sc = strings.ReplaceAll(sc, " ", "~")
-		fmt.Fprintf(out, "racecheck %s %d %s\tok\n", sc, len(newReps), noteTok(raceSummary(newReps[0])))
-		stat("race-reports")
+		// one op per report, so that every report is judged (and matched against the known findings) on its own
+		for _, rep := range newReps {
+			fmt.Fprintf(out, "racecheck %s 1 %s\tok\n", sc, noteTok(raceSummary(rep)))
+			stat("race-reports")
+		}
 	}
 }
 
